@@ -165,7 +165,7 @@ Section Inv.
         destruct st2; inversion H; subst; auto.
       + destruct (tombstone_local mkdig p l _) as [p1|] eqn:TL; [|inversion H; subst; auto].
         pose proof (tombstone_local_inv _ _ _ _ T TL) as T1.
-        destruct (finish_put p1 (mkid (hd_error hist) mb :: hist) del mb) as [p2 st2] eqn:F.
+        destruct (finish_put p1 (mkid (hd_error hist) mb :: hist) _ mb) as [p2 st2] eqn:F.
         pose proof (finish_put_inv _ _ _ _ _ _ T1 (ghist_ext _ _ G) F) as T2.
         destruct st2; inversion H; subst; auto.
     - eapply finish_put_inv; eauto.
